@@ -33,3 +33,33 @@ def roundtrip(model, info, art):
             if parsed != want:
                 problems.append(f"JSONLinesWriter (pre-existing={pre is not None}) lines parse to {parsed!r}")
     return ("confirmed" if problems else "contradicted"), "; ".join(problems) or "files parse back to the documents"
+
+
+def non_ascii(model, info, art):
+    """C34: a run whose metadata holds text the platform's file encoding cannot represent (a lone surrogate, as os.fsdecode returns for a
+    non-UTF-8 path): both writers must still leave files that parse back to the documents"""
+    import json
+    import os
+    import tempfile
+    from bluesky.callbacks.json_writer import JSONWriter, JSONLinesWriter
+    d = tempfile.mkdtemp()
+    name = os.fsdecode(b"/data/raw/\xe9chantillon_12/scan.h5")
+    docs = [("start", {"uid": "abc-123", "time": 0.0, "data_file": name}), ("stop", {"uid": "s", "run_start": "abc-123", "time": 1.0, "exit_status": "success"})]
+    bad = []
+    for cls, fn in ((JSONWriter, "abc.json"), (JSONLinesWriter, "abc.jsonl")):
+        wtr = cls(d, fn)
+        try:
+            for n, doc in docs:
+                wtr(n, doc)
+        except Exception as e:   # noqa
+            bad.append(f"{cls.__name__} raised {type(e).__name__}")
+            continue
+        text = open(os.path.join(d, fn)).read()
+        try:
+            got = json.loads(text) if fn.endswith(".json") else [json.loads(line) for line in text.splitlines()]
+        except Exception as e:   # noqa
+            bad.append(f"{cls.__name__}: file does not parse ({type(e).__name__})")
+            continue
+        if [g["doc"] for g in got] != [dict(doc) for n, doc in docs]:
+            bad.append(f"{cls.__name__}: parsed documents differ")
+    return ("confirmed" if bad else "contradicted"), "; ".join(bad) or "both files parse back to the documents, non-ASCII metadata included"
